@@ -19,11 +19,15 @@ static size_t cblen;
 
 static const struct rtr_socket *src_ptr(unsigned long s)
 {
+	if (s == 0)
+		return NULL; /* a record added by the application itself: no socket */
 	return (const struct rtr_socket *)(uintptr_t)(0x10000 + s * 64);
 }
 
 static unsigned long src_id(const struct rtr_socket *p)
 {
+	if (!p)
+		return 0;
 	return ((uintptr_t)p - 0x10000) / 64;
 }
 
